@@ -43,6 +43,8 @@ func checkC02(c *Ctx) {
 	c02KDF(c)
 	c02ASN1(c)
 	c02Inputs(c)
+	noPointerParamWrites(c, "FX-C02-inputs", "sm2", []string{"Encrypt", "Decrypt", "EncryptAsn1", "DecryptAsn1"}, "the caller's key object is changed by an encryption / decryption")
+	c01Nonce(c) // Encrypt draws k through the same randFieldElement as signing (rule of C01)
 
 	var fs []*ssa.Function
 	for _, n := range []string{"Decrypt", "Encrypt", "CipherMarshal", "CipherUnmarshal", "DecryptAsn1", "EncryptAsn1", "kdf", "intToBytes", "BytesCombine", "(*PrivateKey).Decrypt", "(*PrivateKey).DecryptAsn1", "(*PublicKey).EncryptAsn1"} {
